@@ -567,7 +567,7 @@ fn generate_expr(expr: OptimizedExpr) -> TokenStream {
             let expr = generate_expr(*expr);
 
             quote! {
-                state.stack_push(|state| #expr)
+                state.stack_push(|state| { #expr })
             }
         }
         #[cfg(feature = "grammar-extras")]
@@ -758,7 +758,7 @@ fn generate_expr_atomic(expr: OptimizedExpr) -> TokenStream {
             let expr = generate_expr_atomic(*expr);
 
             quote! {
-                state.stack_push(|state| #expr)
+                state.stack_push(|state| { #expr })
             }
         }
         #[cfg(feature = "grammar-extras")]
